@@ -111,6 +111,11 @@ class Harness:
             case, seen = relayout(case)
             for k, v in seen.items():
                 ctx.count("arrays_layout_" + k, v)
+        from vf import lifecycle
+        life = getattr(self.mod, "LIFECYCLE", True) and lifecycle.enabled()
+        if life:
+            lifecycle.install()
+            lifecycle.begin_case(case_hash(case))
         signal.alarm(self.watchdog_s)
         try:
             with warnings.catch_warnings():
@@ -121,6 +126,10 @@ class Harness:
                     pass
         finally:
             signal.alarm(0)
+            if life:
+                lifecycle.begin_case("")
+                for k, v in lifecycle.take_counts().items():
+                    ctx.count(k, v)
         return ctx
 
     def summarize(self, case, ctx=None):
